@@ -20,7 +20,7 @@ def hx(s):
 
 
 def held_values(r):
-    hs = ["nil", "sliceother", "other", "bool:0:1", "bool:0:0", "bool:1:1"]
+    hs = ["nil", "sliceother", "other", "bool:0:1", "bool:0:0", "bool:1:1", "bytes:0:nil", "bytes:1:nil"]
     for k in KINDS:
         lo, hi = rng_of(k)
         for z in {lo, hi, 0, 1, min(hi, 127), max(lo, -1), r.randint(lo, hi)}:
@@ -149,7 +149,7 @@ def nontrivial(case):
 def held_to_coq(h):
     p = h.split(":")
     nm = lambda x: "true" if x == "1" else "false"
-    bl = lambda hexs: coq_list([str(b) for b in bytes.fromhex(hexs)])
+    bl = lambda hexs: coq_list([str(b) for b in bytes.fromhex("" if hexs == "nil" else hexs)])
     K = lambda k: k.upper()
     if p[0] == "nil":
         return "HNil"
